@@ -1,80 +1,643 @@
-# C06 — RecInt computes exactly modulo 2^(2^K).   (DESIGN 5/C06)
+# C06 — RecInt computes exactly modulo 2^(2^K).   (DESIGN 5/C06, frag/C06.design.md)
 # proof:  coq/C06 (model by recursion on K, theorems by induction on K)
-# tie:    correspondence: extracted model  vs  ruint<K> of /repo's current headers, K = 6..11
-# search: python big-integer specification oracle on the same cases
-import os, re, sys
+# tie:    correspondence: extracted model  vs  ruint<K>/rint<K> of /repo's current headers, K = 6..11
+# search: python big-integer specification oracle on the same cases (independent of the Coq model)
+import json, math, os, re, sys
+from concurrent.futures import ThreadPoolExecutor
 import vf
 
 AREA = "C06"
+KS = range(6, 12)
 
-# variant -> (model op, number of operands, number of result tokens compared)
-VARIANTS = {
-    "add.rabc": ("add", 2, 2), "add.rab": ("add", 2, 2), "add.abc": ("add", 2, 1), "add.ab": ("add", 2, 1),
-    "add.op+": ("add", 2, 1), "add.op+=": ("add", 2, 1), "add.alias": ("add", 2, 2),
-    "add_wc.rabc": ("add_wc", 3, 2), "add_wc.rab": ("add_wc", 3, 2), "add_wc.abc": ("add_wc", 3, 1), "add_wc.ab": ("add_wc", 3, 1),
-    "add_w.rabc": ("add_w", 2, 2), "add_w.rab": ("add_w", 2, 2), "add_w.abc": ("add_w", 2, 1), "add_w.ab": ("add_w", 2, 1),
-    "add_w.op+": ("add_w", 2, 1),
-    "add_1.ra": ("add_1", 1, 2), "add_1.rab": ("add_1", 1, 2), "add_1.a": ("add_1", 1, 1), "add_1.ab": ("add_1", 1, 1),
-    "add_1.op++": ("add_1", 1, 1),
-    "sub.rabc": ("sub", 2, 2), "sub.rab": ("sub", 2, 2), "sub.abc": ("sub", 2, 1), "sub.ab": ("sub", 2, 1),
-    "sub.op-": ("sub", 2, 1), "sub.op-=": ("sub", 2, 1),
-    "sub_wc.rabc": ("sub_wc", 3, 2), "sub_wc.rab": ("sub_wc", 3, 2), "sub_wc.abc": ("sub_wc", 3, 1), "sub_wc.ab": ("sub_wc", 3, 1),
-    "cmp.cmp": ("cmp", 2, 1), "cmp.ops": ("cmp", 2, 1),
-    "lmul_naive.hl": ("lmul_naive", 2, 2), "lmul_naive.a": ("lmul_naive", 2, 2),
-    "lmul_kara.hl": ("lmul_kara", 2, 2), "lmul_kara.a": ("lmul_kara", 2, 2),
-    "lmul.hl": ("lmul", 2, 2), "lmul.a": ("lmul", 2, 2),
-    "laddmul.rhl": ("laddmul", 3, 3), "laddmul.hl": ("laddmul", 3, 2), "laddmul.ra": ("laddmul", 3, 3),
-    "laddmul2.rhl": ("laddmul2", 3, 3), "laddmul2.ra": ("laddmul2", 3, 3),
-    "mul.abc": ("mul", 2, 1), "mul.ab": ("mul", 2, 1), "mul.op*": ("mul", 2, 1), "mul.op*=": ("mul", 2, 1),
-    "addmul.abc": ("addmul", 3, 1),
-}
+# ------------------------------------------------------------------------------------------------ variants
+# variant -> (model op | None, spec key, generator key, number of result tokens compared, harness part, flags)
+# flags: "w" needs ruint<K+1> (covered up to K = 10), "k7" only K >= 7, "k8" only K >= 8, "heavy" few cases at large K
+def _v(model, spec, gen, nres, part, flags=""):
+    return {"model": model, "spec": spec, "gen": gen, "nres": nres, "part": part, "flags": flags}
 
 
-def oracle(op, K, a):
-    """the specification: integer arithmetic reduced to 2^K bits"""
+VARIANTS = {}
+
+
+def _add(names, *a, **k):
+    for n in names.split():
+        VARIANTS[n] = _v(*a, **k)
+
+
+# --- part 1: add / sub / compare
+_add("add.rabc add.rab add.alias add.alias2", "add", "add", "2", 2, 1)
+_add("add.abc add.ab add.op+ add.op+=", "add", "add", "2", 1, 1)
+_add("add_wc.rabc add_wc.rab", "add_wc", "add_wc", "2c", 2, 1)
+_add("add_wc.abc add_wc.ab", "add_wc", "add_wc", "2c", 1, 1)
+_add("add_w.rabc add_w.rab", "add_w", "add_w", "1w", 2, 1)
+_add("add_w.abc add_w.ab add_w.op+ add_w.op+r add_w.op+=", "add_w", "add_w", "1w", 1, 1)
+_add("add_w.u32", "add_w", "add_w", "1w32", 1, 1)
+_add("add_w.int add_w.op-neg add_w.op-=neg", "add_w", "add_w", "1w63", 1, 1)
+_add("add_1.ra add_1.rab", "add_1", "add_1", "1", 2, 1)
+_add("add_1.a add_1.ab add_1.op++ add_1.op++post", "add_1", "add_1", "1", 1, 1)
+_add("sub.rabc sub.rab sub.alias sub.alias2", "sub", "sub", "2", 2, 1)
+_add("sub.abc sub.ab sub.op- sub.op-=", "sub", "sub", "2", 1, 1)
+_add("sub_wc.rabc sub_wc.rab", "sub_wc", "sub_wc", "2c", 2, 1)
+_add("sub_wc.abc sub_wc.ab", "sub_wc", "sub_wc", "2c", 1, 1)
+_add("sub_w.rabc sub_w.rab", "sub_w", "sub_w", "1w", 2, 1)
+_add("sub_w.abc sub_w.ab sub_w.op- sub_w.op-=", "sub_w", "sub_w", "1w", 1, 1)
+_add("sub_w.int sub_w.op+neg sub_w.op+=neg", "sub_w", "sub_w", "1w63", 1, 1)
+_add("rsub_w.op-", None, "rsub_w", "1w", 1, 1)
+_add("sub_1.ra sub_1.rab", "sub_1", "sub_1", "1", 2, 1)
+_add("sub_1.a sub_1.ab sub_1.op-- sub_1.op--post", "sub_1", "sub_1", "1", 1, 1)
+_add("cmp.cmp cmp.ops", "cmp", "cmp", "2eq", 1, 1)
+_add("cmp_w.u64", None, "cmp_w", "1wsmall", 1, 1)
+_add("cmp_w.i64", None, "cmp_si", "1si", 1, 1)
+# --- part 1: products
+_add("lmul_naive.hl lmul_kara.hl lmul.hl", None, "lmul", "2", 2, 1)
+_add("lmul_naive.a lmul_kara.a lmul.a", None, "lmul", "2", 2, 1, flags="w")
+for _n in ("lmul_naive", "lmul_kara", "lmul"):
+    VARIANTS[_n + ".hl"]["model"] = _n
+    VARIANTS[_n + ".a"]["model"] = _n
+_add("laddmul.rhl", "laddmul", "laddmul", "3", 3, 1)
+_add("laddmul.hl", "laddmul", "laddmul", "3", 2, 1)
+_add("laddmul.ra", "laddmul", "laddmul", "3", 3, 1, flags="w")
+_add("laddmul.a", "laddmul", "laddmul", "3", 2, 1, flags="w")
+_add("laddmul2.rhl laddmul2.ra", "laddmul2", "laddmul", "3d2", 3, 1, flags="w")
+_add("mul.abc mul.ab mul.op* mul.op*= mul.alias mul.alias2", "mul", "mul", "2", 1, 1)
+_add("mul.self", "mul", "mul", "self2", 1, 1)
+_add("addmul.abc", "addmul", "addmul", "3", 1, 1)
+_add("addmul_w.abc", None, "addmul_w", "3w", 1, 1)
+_add("lmul_w.ra", "lmul_w", "lmul_w", "1w", 2, 1)
+_add("lmul_w.a", "lmul_w", "lmul_w", "1w", 2, 1, flags="w")
+_add("mul_w.abc mul_w.ab mul_w.op* mul_w.op*r mul_w.op*=", "lmul_w", "lmul_w", "1w", 1, 1)
+_add("mul_w.u32", "lmul_w", "lmul_w", "1w32", 1, 1)
+_add("mul_w.int", "lmul_w", "lmul_w", "1w63", 1, 1)
+_add("mulneg_w.op* mulneg_w.op*r mulneg_w.op*=", None, "mulneg_w", "1w63", 1, 1)
+_add("square.ab", "square", "square", "1", 1, 1)
+_add("lsquare.a", "lsquare", "lsquare", "1", 2, 1, flags="w")
+# --- part 1: bit operations, limb access
+_add("lnot.op~", "lnot", "lnot", "1", 1, 1)
+_add("neg.op- neg.ab neg.a", "neg", "neg", "1", 1, 1)
+_add("lor.op| lor.op|=", "lor", "lor", "2", 1, 1)
+_add("lxor.op^ lxor.op^=", "lxor", "lxor", "2", 1, 1)
+_add("land.op& land.op&=", "land", "land", "2", 1, 1)
+_add("lor_w.op| lor_w.op|=", "lor_w", "lor_w", "1w", 1, 1)
+_add("lxor_w.op^ lxor_w.op^=", "lxor_w", "lxor_w", "1w", 1, 1)
+_add("land_w.op& land_w.op&=", "land_w", "land_w", "1w", 1, 1)
+_add("bits.all", "bits", "bits", "1", 6, 1)
+_add("limb.setget", "limb", "limb", "limb", 2, 1)
+_add("manip.all", None, "manip", "1w", 9, 1)
+# --- part 1: shifts
+_add("shl.abc shl.op<< shl.op<<=", "shl", "shl", "sh64", 1, 1)
+_add("shl.int", "shl", "shl", "sh31", 1, 1)
+_add("shl.u32", "shl", "shl", "sh32", 1, 1)
+_add("shl.u16", "shl", "shl", "sh16", 1, 1)
+_add("shl.u8", "shl", "shl", "sh8", 1, 1)
+_add("shr.abc shr.op>> shr.op>>= shr.alias", "shr", "shr", "sh64", 1, 1)
+_add("shr.int", "shr", "shr", "sh31", 1, 1)
+_add("shr.u32", "shr", "shr", "sh32", 1, 1)
+_add("shr.u16", "shr", "shr", "sh16", 1, 1)
+_add("shr.u8", "shr", "shr", "sh8", 1, 1)
+_add("shl1.zab", "shl1", "shl1", "1", 2, 1)
+_add("shl1.ab shl1.alias", "shl1", "shl1", "1", 1, 1)
+_add("shr1.zab", "shr1", "shr1", "1", 2, 1)
+_add("shr1.ab", "shr1", "shr1", "1", 1, 1)
+_add("shl_ext.abd", "shl_ext", "shl_ext", "sh64x", 1, 1, flags="w")
+_add("norm.d", "norm", "norm", "1n", 1, 1)
+# --- part 2: division
+_add("div.qrab div.alias", "div", "div", "div", 2, 2)
+_add("div.q div.op/ div.op/=", "div", "div", "div", 1, 2)
+_add("div.r div.op% div.op%= mod_n.ab mod_n.a", "div", "divr", "div", 1, 2)
+_add("div_w.qrab", "div_w", "div_w", "divw", 2, 2)
+_add("div_w.q div_w.op/ div_w.op/=", "div_w", "div_w", "divw", 1, 2)
+_add("div_w.int", "div_w", "div_w", "divw63", 1, 2)
+_add("div_w.r div_w.op% div_w.op%=", "div_w", "divr_w", "divw", 1, 2)
+_add("divneg_w.op/ divneg_w.op/=", None, "divneg_w", "divw63", 1, 2)
+_add("div21.qr", "div21", "div21", "div21", 2, 2)
+_add("div32.qrr", "div32", "div32", "div32", 3, 2)
+_add("mod_n.abn", "mod_n", "mod_n", "modn", 1, 2, flags="w")
+# --- part 2: gcd, inverses, powers
+_add("gcd.abc gcd.bc", "gcd", "gcd", "gcd", 1, 2, flags="heavy")
+_add("inv_mod.abc", "inv_mod", "inv_mod", "inv", 1, 2, flags="heavy")
+_add("bezout_mod.xycd", "bezout_mod", "bezout_mod", "bez", 2, 2, flags="heavy")
+_add("exp_mod.abcn", "exp_mod", "exp_mod", "exp", 1, 2, flags="vheavy")
+_add("exp_mod_w.abcn", "exp_mod_w", "exp_mod", "expw", 1, 2, flags="heavy")
+_add("exp_mod_w.u32", None, "exp_mod", "expw32", 1, 2, flags="heavy")
+_add("arazi_qi.ua", "arazi_qi", "arazi_qi", "odd", 1, 2)
+# --- part 2: conversions
+_add("mpz_to_ruint.ab mpz_to_ruint.t", "mpz_to_ruint", "mpz_to_ruint", "mpzu", 1, 2)
+_add("mpz_to_ruint.str", "mpz_to_ruint", "mpz_to_ruint", "mpzu", 1, 2, flags="k7")
+_add("ruint_to_mpz.ab ruint_to_mpz.t", None, "ruint_to_mpz", "1", 1, 2)
+_add("ruint_to_mpz.round", None, "ident", "1", 1, 2)
+_add("s.mpz_to_rint s.mpz_to_rint.t", "mpz_to_rint", "mpz_to_rint", "mpzs", 1, 2)
+_add("s.rint_to_mpz s.rint_to_mpz.t", "rint_to_mpz", "rint_to_mpz", "1s", 1, 2)
+# --- part 2: signed
+_add("s.add.abc s.add.op+ s.add.op+=", "add", "add", "2s", 1, 2)
+_add("s.add.rabc", "add", "add", "2s", 2, 2)
+_add("s.add_1.op++", "add_1", "add_1", "1s", 1, 2)
+_add("s.sub.abc s.sub.op- s.sub.op-=", "sub", "sub", "2s", 1, 2)
+_add("s.sub.rabc", "sub", "sub", "2s", 2, 2)
+_add("s.sub_1.op--", "sub_1", "sub_1", "1s", 1, 2)
+_add("s.mul.abc s.mul.ab s.mul.op* s.mul.op*=", "mul", "mul", "2s", 1, 2)
+_add("s.addmul.abc", "addmul", "addmul", "3", 1, 2)
+_add("s.neg.op- s.neg.a", "neg", "neg", "1s", 1, 2)
+_add("s.lnot.op~", "lnot", "lnot", "1s", 1, 2)
+_add("s.lor.op| s.lor.op|=", "lor", "lor", "2s", 1, 2)
+_add("s.lxor.op^ s.lxor.op^=", "lxor", "lxor", "2s", 1, 2)
+_add("s.land.op& s.land.op&=", "land", "land", "2s", 1, 2)
+_add("s.shl.op<< s.shl.op<<=", "shl", "shl", "sh64", 1, 2)
+_add("s.shr.op>> s.shr.op>>=", "shr", "sshr", "sh64s", 1, 2)
+_add("s.sign", None, "ssign", "1s", 2, 2)
+_add("s.div_q.qab s.div_q.op/ s.div_q.op/=", "sdiv_q", "sdiv_q", "sdiv", 1, 2)
+_add("s.div_r.rab s.div_r.op% s.div_r.op%=", "sdiv_r", "sdiv_r", "sdivr", 1, 2)
+_add("s.div_q_w.i64 s.div_q_w.op/ s.div_q_w.op/=", None, "sdiv_q_si", "sdivsi", 1, 2)
+_add("s.cmp.cmp s.cmp.ops", "scmp", "scmp", "2seq", 1, 2)
+_add("s.cmp_w.i64", None, "scmp_si", "1ssi", 1, 2)
+_add("s.cmp_w.int", None, "scmp_si", "1ssi32", 1, 2)
+_add("s.cmp_w.u64", None, "scmp_w", "1swsmall", 1, 2)
+_add("s.ctor.i64 u.ctor.i64", None, "ctor_si", "si", 1, 2)
+_add("s.ctor.int", None, "ctor_si", "si32", 1, 2)
+_add("u.ctor.u64", None, "ctor_w", "w", 1, 2)
+_add("s.add_w.i64 s.add_w.op+=", None, "sadd_si", "1ssi", 1, 2)
+_add("s.add_w.u64", None, "add_w1", "1sw", 1, 2)
+_add("s.sub_w.i64 s.sub_w.op-=", None, "ssub_si", "1ssi", 1, 2)
+_add("s.sub_w.u64", None, "sub_w1", "1sw", 1, 2)
+_add("s.mul_w.op* s.mul_w.op*r s.mul_w.op*= s.mul_w.abc", None, "smul_si", "1ssi", 1, 2)
+_add("s.mod_n.a", None, "smod_n1", "smodn1", 1, 2)
+_add("s.mod_n.abn", "smod_n", "smod_n", "smodn", 1, 2, flags="w")
+_add("s.inv_mod", "sinv_mod", "sinv_mod", "sinv", 1, 2, flags="heavy")
+_add("s.lmul.a", "slmul", "slmul", "2s", 1, 2, flags="w")
+_add("s.lsquare.a", "slsquare", "slsquare", "1s", 1, 2, flags="w")
+_add("s.sext", "sext", "sext", "1s", 1, 2, flags="w")
+
+DEC_RESULTS = {"cmp", "cmp_w", "cmp_si", "scmp", "scmp_si", "scmp_w", "ruint_to_mpz", "rint_to_mpz"}   # decimal result tokens
+
+
+# ------------------------------------------------------------------------------------------------ specification
+def sgn(x):
+    return (x > 0) - (x < 0)
+
+
+def sval(x, K):
+    """two's-complement reading of the 2^K-bit pattern x"""
     Bk = 1 << (1 << K)
-    if op == "add":
+    return x - Bk if x >= Bk // 2 else x
+
+
+def tdiv(a, b):
+    q = abs(a) // abs(b)
+    return -q if (a < 0) != (b < 0) else q
+
+
+def oracle(spec, K, a):
+    """the specification: integer arithmetic (python ints), reduced to 2^K bits.  Returns a list of ints, or None
+    when the operation's documented precondition does not hold for these arguments (nothing to check then)."""
+    n = 1 << K
+    Bk = 1 << n
+    if spec == "add":
         s = a[0] + a[1]; return [s % Bk, s // Bk]
-    if op == "add_wc":
+    if spec == "add_wc":
         s = a[0] + a[1] + (1 if a[2] else 0); return [s % Bk, s // Bk]
-    if op == "add_w":
+    if spec == "add_w":
         s = a[0] + a[1]; return [s % Bk, s // Bk]
-    if op == "add_1":
+    if spec == "add_1":
         s = a[0] + 1; return [s % Bk, s // Bk]
-    if op == "sub":
+    if spec in ("sub", "sub_w"):
         s = a[0] - a[1]; return [s % Bk, 1 if s < 0 else 0]
-    if op == "sub_wc":
+    if spec == "rsub_w":
+        return [(a[1] - a[0]) % Bk]
+    if spec == "sub_wc":
         s = a[0] - a[1] - (1 if a[2] else 0); return [s % Bk, 1 if s < 0 else 0]
-    if op == "cmp":
-        return [(a[0] > a[1]) - (a[0] < a[1])]
-    if op in ("lmul_naive", "lmul_kara", "lmul"):
+    if spec == "sub_1":
+        return [(a[0] - 1) % Bk, 1 if a[0] == 0 else 0]
+    if spec in ("cmp", "cmp_w", "cmp_si"):
+        return [sgn(a[0] - a[1])]
+    if spec == "lmul":
         p = a[0] * a[1]; return [p % Bk, p // Bk]
-    if op in ("laddmul", "laddmul2"):
+    if spec == "laddmul":
         p = a[0] * a[1] + a[2]; return [p % Bk, (p // Bk) % Bk, p // (Bk * Bk)]
-    if op == "mul":
+    if spec == "mul":
         return [(a[0] * a[1]) % Bk]
-    if op == "addmul":
+    if spec == "addmul" or spec == "addmul_w":
         return [(a[0] + a[1] * a[2]) % Bk]
-    raise KeyError(op)
+    if spec == "lmul_w":
+        p = a[0] * a[1]; return [p % Bk, p // Bk]
+    if spec == "mulneg_w":
+        return [(-(a[0] * a[1])) % Bk]
+    if spec == "lsquare":
+        p = a[0] * a[0]; return [p % Bk, p // Bk]
+    if spec == "square":
+        return [(a[0] * a[0]) % Bk]
+    if spec == "lnot":
+        return [Bk - 1 - a[0]]
+    if spec == "neg":
+        return [(-a[0]) % Bk]
+    if spec in ("lor", "lor_w"):
+        return [a[0] | a[1]]
+    if spec in ("lxor", "lxor_w"):
+        return [a[0] ^ a[1]]
+    if spec in ("land", "land_w"):
+        return [a[0] & a[1]]
+    if spec == "bits":
+        return [a[0] >> (n - 1), a[0] & 1, a[0] | (Bk >> 1), a[0] | 1, Bk >> 1, Bk - 1]
+    if spec == "limb":
+        i = a[2]; m = ((1 << 64) - 1) << (64 * i)
+        return [(a[0] & ~m) | (a[1] << (64 * i)), (a[0] >> (64 * i)) & ((1 << 64) - 1)]
+    if spec == "manip":
+        W = 1 << 64; top = 64 * (n // 64 - 1)
+        return [0, a[0], a[0] >> top, (a[0] % (1 << top)) | (a[1] << top), (a[0] - a[0] % W) | a[1], a[0] % W,
+                1 if a[0] else 0, a[0] % W, n // 64]
+    if spec == "shl":
+        return [0 if a[1] > 2 * n else (a[0] << a[1]) % Bk]
+    if spec == "shr":
+        return [0 if a[1] > 2 * n else a[0] >> a[1]]
+    if spec == "sshr":          # arithmetic shift of the signed reading (what mpz_fdiv_q_2exp computes), reduced
+        return [(-1 if sval(a[0], K) < 0 else 0) % Bk if a[1] > 2 * n else (sval(a[0], K) >> a[1]) % Bk]
+    if spec == "shl1":
+        return [(2 * a[0]) % Bk, a[0] >> (n - 1)]
+    if spec == "shr1":
+        return [a[0] >> 1, a[0] & 1]
+    if spec == "shl_ext":
+        return [0 if a[1] > 4 * n else (a[0] << a[1]) % (Bk * Bk)]
+    if spec == "norm":
+        return [n - a[0].bit_length()]
+    if spec == "div":
+        return None if a[1] == 0 else [a[0] // a[1], a[0] % a[1]]
+    if spec == "divr":
+        return None if a[1] == 0 else [a[0] % a[1]]
+    if spec == "div_w":
+        return None if a[1] == 0 else [a[0] // a[1], a[0] % a[1]]
+    if spec == "divr_w":
+        return None if a[1] == 0 else [a[0] % a[1]]
+    if spec == "divneg_w":
+        return None if a[1] == 0 else [(-(a[0] // a[1])) % Bk]
+    if spec == "div21":
+        if not (a[2] >= Bk // 2 and a[0] < a[2]):
+            return None
+        N = a[0] * Bk + a[1]; return [N // a[2], N % a[2]]
+    if spec == "div32":
+        if not (a[3] >= Bk // 2 and (a[0], a[1]) < (a[3], a[4])):
+            return None
+        A = (a[0] * Bk + a[1]) * Bk + a[2]; Bv = a[3] * Bk + a[4]
+        q, R = divmod(A, Bv); return [q, R // Bk, R % Bk]
+    if spec == "mod_n":
+        return None if a[1] == 0 else [a[0] % a[1]]
+    if spec == "gcd":
+        return [math.gcd(a[0], a[1])]
+    if spec == "inv_mod":
+        if a[1] == 0 or math.gcd(a[0], a[1]) != 1:
+            return None
+        return [pow(a[0], -1, a[1])]
+    if spec == "bezout_mod":
+        if a[0] < 2 or a[1] < 2 or math.gcd(a[0], a[1]) != 1:
+            return None
+        return [pow(a[0], -1, a[1]), pow(a[1], -1, a[0])]
+    if spec == "exp_mod":
+        return None if a[2] == 0 else [pow(a[0], a[1], a[2])]
+    if spec == "arazi_qi":
+        return None if a[0] % 2 == 0 else [pow(a[0], -1, Bk)]
+    if spec in ("mpz_to_ruint", "mpz_to_rint", "ctor_si", "ctor_w"):
+        return [a[0] % Bk]
+    if spec in ("ruint_to_mpz", "ident"):
+        return [a[0]]
+    if spec == "rint_to_mpz":
+        return [sval(a[0], K)]
+    if spec == "ssign":
+        return [1 if sval(a[0], K) < 0 else 0, 0 if sval(a[0], K) < 0 else 1]
+    if spec == "sdiv_q":
+        return None if a[1] == 0 else [tdiv(sval(a[0], K), sval(a[1], K)) % Bk]
+    if spec == "sdiv_r":        # documented precondition (assert in the code): b > 1
+        sa, sb = sval(a[0], K), sval(a[1], K)
+        return None if sb <= 1 else [(sgn(sa) * (abs(sa) % sb)) % Bk]
+    if spec == "sdiv_q_si":
+        return None if a[1] == 0 else [tdiv(sval(a[0], K), a[1]) % Bk]
+    if spec == "scmp":
+        return [sgn(sval(a[0], K) - sval(a[1], K))]
+    if spec in ("scmp_si", "scmp_w"):
+        return [sgn(sval(a[0], K) - a[1])]
+    if spec in ("sadd_si", "add_w1"):
+        return [(a[0] + a[1]) % Bk]
+    if spec in ("ssub_si", "sub_w1"):
+        return [(a[0] - a[1]) % Bk]
+    if spec == "smul_si":
+        return [(a[0] * a[1]) % Bk]
+    if spec == "smod_n1":
+        sn = sval(a[1], K)
+        return None if sn <= 0 else [sval(a[0], K) % sn]
+    if spec == "smod_n":
+        sn = sval(a[1], K)
+        return None if sn <= 0 else [sval(a[0], K + 1) % sn]
+    if spec == "sinv_mod":
+        sb, sc = sval(a[0], K), sval(a[1], K)
+        if sc <= 1 or math.gcd(sb, sc) != 1 or sb <= -sc:
+            return None
+        return [pow(sb % sc, -1, sc)]
+    if spec == "slmul":
+        return [(sval(a[0], K) * sval(a[1], K)) % (Bk * Bk)]
+    if spec == "slsquare":
+        return [(sval(a[0], K) ** 2) % (Bk * Bk)]
+    if spec == "sext":
+        return [sval(a[0], K) % (Bk * Bk)]
+    raise KeyError(spec)
 
 
-def gen_operand(rng, K, op, idx):
+# ------------------------------------------------------------------------------------------------ generators
+W64 = 1 << 64
+WORDS = [0, 1, 2, 3, 2**31, 2**32 - 1, 2**32, 2**63 - 1, 2**63, 2**63 + 1, 2**64 - 2, 2**64 - 1]
+
+
+def g_int(rng, K):
+    """operand of 2^K bits: boundary values / directed limbs {0,1,2^63,2^64-1,..} / random length"""
     Bk = 1 << (1 << K)
     n = 1 << (K - 6)
-    if op == "add_w" and idx == 1:
-        return rng.choice([0, 1, 2**63, 2**64 - 1, rng.bits(64)])
-    if op in ("add_wc", "sub_wc") and idx == 2:
-        return rng.below(2)
-    if op == "laddmul2" and idx == 2:
-        K, Bk, n = K + 1, Bk * Bk, 2 * n
     r = rng.below(8)
     if r == 0:
-        return rng.choice([0, 1, Bk - 1, Bk // 2, Bk // 2 - 1, Bk - 2, (1 << (1 << (K - 1))) - 1 if K > 6 else 3, 1 << (1 << (K - 1)) if K > 6 else 5])
+        h = 1 << (1 << (K - 1))
+        return rng.choice([0, 1, 2, Bk - 1, Bk // 2, Bk // 2 - 1, Bk // 2 + 1, Bk - 2, h - 1, h, h + 1, Bk - h, Bk - h - 1])
     if r < 6:
         return vf.limbs_value(rng, n)
     return rng.bits(rng.range(1, 1 << K))
 
 
+def g_word(rng, maxbits=64):
+    r = rng.below(4)
+    if r == 0:
+        return rng.choice([w for w in WORDS if w < (1 << maxbits)])
+    if r == 1:
+        return rng.bits(rng.range(1, maxbits))
+    return rng.bits(maxbits)
+
+
+def g_si(rng, bits=64):
+    lim = 1 << (bits - 1)
+    r = rng.below(4)
+    if r == 0:
+        return rng.choice([0, 1, -1, 2, -2, 3, -3, lim - 1, -(lim - 1), 2**31 - 1 if bits > 32 else 7, -(2**31) if bits > 32 else -7])
+    v = rng.bits(rng.range(1, bits - 1))
+    return -v if rng.chance(1, 2) else v
+
+
+def g_shift(rng, K, maxv, ext=False):
+    nb = 1 << K
+    if ext:
+        nb *= 2
+    pts = [0, 1, 2, 31, 32, 33, 63, 64, 65, 127, 128, 129, nb // 4, nb // 2 - 1, nb // 2, nb // 2 + 1, nb - 1, nb, nb + 1,
+           2 * nb - 1, 2 * nb, 2 * nb + 1, 3 * nb, 255, 256, 65535, 2**31 - 1, 2**32 - 1, 2**63 - 1, 2**63, 2**64 - 1]
+    pts = [p for p in pts if p <= maxv]
+    r = rng.below(3)
+    if r == 0:
+        return rng.choice(pts)
+    if r == 1:
+        return min(maxv, rng.below(nb + 2))
+    return min(maxv, rng.choice([nb // 2, nb // 4, 64, 128, nb]) + rng.range(-2, 2) if K > 6 else rng.below(70))
+
+
+def g_divisor(rng, K):
+    """divisors aimed at the quotient-estimate corrections: top half 100..0 / 0111..1 / all ones, low half all ones"""
+    n = 1 << K
+    Bk = 1 << n
+    r = rng.below(10)
+    if r < 3:
+        nb = rng.choice([n, n, n // 2, n // 2 + 1, 64, 65, rng.range(1, n)]) if K > 6 else rng.range(1, 64)
+        hi = rng.choice([1 << (nb - 1), (1 << (nb - 1)) + 1, (1 << nb) - 1, (1 << (nb - 1)) | ((1 << (nb // 2)) - 1)])
+        return max(1, hi)
+    if r < 5:
+        # b1 = 2^(h-1) (smallest normalised top half), b0 = all ones or close
+        h = n // 2
+        b1 = rng.choice([1 << (h - 1), (1 << (h - 1)) + 1, (1 << h) - 1, (1 << (h - 1)) + rng.bits(8)])
+        b0 = rng.choice([(1 << h) - 1, (1 << h) - 2, (1 << h) - 1 - rng.bits(16), rng.bits(h), 0, 1])
+        return (b1 << h) | b0
+    if r < 6:
+        return rng.choice([1, 2, 3, W64 - 1, W64, W64 + 1, Bk - 1, Bk // 2, Bk // 2 + 1]) % Bk or 1
+    v = g_int(rng, K)
+    if rng.chance(1, 2):
+        v >>= rng.below(n)
+    return v or 1
+
+
+def g_dividend_for(rng, K, b, top=None):
+    """a = q*b + r with q and r from boundary sets, kept below `top` (default 2^(2^K))"""
+    Bk = top or (1 << (1 << K))
+    r = rng.below(6)
+    if r == 0:
+        return g_int(rng, K) % Bk
+    qmax = (Bk - 1) // b
+    q = rng.choice([qmax, max(qmax - 1, 0), qmax // 2, rng.below(qmax + 1), rng.below(qmax + 1), vf.limbs_value(rng, 1 << (K - 6)) % (qmax + 1)])
+    rem = rng.choice([0, 1, b - 1, max(b - 2, 0), rng.below(b), b // 2])
+    a = q * b + rem
+    return a if a < Bk else (q * b if q * b < Bk else rem)
+
+
+def g_div32(rng, K):
+    """(a2,a1,a0,b1,b0) with b1 normalised and (a2,a1) < (b1,b0); aimed at q = B-1 and at one / two corrections"""
+    n = 1 << K
+    Bk = 1 << n
+    b1 = rng.choice([Bk // 2, Bk // 2 + 1, Bk - 1, Bk // 2 + rng.bits(n - 1), Bk // 2 + rng.bits(16), (Bk // 2) | vf.limbs_value(rng, 1 << (K - 6))])
+    b1 = (b1 % Bk) | (Bk // 2)
+    b0 = rng.choice([Bk - 1, Bk - 2, 0, 1, rng.bits(n), Bk - 1 - rng.bits(20), vf.limbs_value(rng, 1 << (K - 6))])
+    Bv = b1 * Bk + b0
+    r = rng.below(8)
+    if r < 3:
+        # a2 = b1: the q = B-1 branch
+        a2 = b1
+        a1 = rng.below(b0) if b0 > 0 else 0
+        if b0 == 0:
+            a2 = b1 - 1; a1 = rng.bits(n)
+        a0 = rng.choice([0, 1, Bk - 1, rng.bits(n)])
+        if rng.chance(1, 3) and b0 > 0:
+            a1 = b0 - 1; a0 = rng.choice([Bk - 1, 0, rng.bits(n)])
+        return [a2, a1, a0, b1, b0]
+    if r < 7:
+        # A = q*Bv + R with q, R from boundary sets
+        q = rng.choice([Bk - 1, Bk - 2, Bk // 2, rng.bits(n), vf.limbs_value(rng, 1 << (K - 6)), 0, 1])
+        R = rng.choice([0, 1, Bv - 1, Bv - 2, rng.below(Bv), b0, Bv - b0 - 1 if Bv > b0 + 1 else 0])
+        A = q * Bv + R
+        return [A >> (2 * n), (A >> n) % Bk, A % Bk, b1, b0]
+    a2 = rng.below(b1)
+    return [a2, rng.bits(n), rng.bits(n), b1, b0]
+
+
+def g_coprime_pair(rng, K, odd_mod=False):
+    n = 1 << K
+    for _ in range(50):
+        c = g_int(rng, K) or 3
+        if rng.chance(1, 3):
+            c >>= rng.below(n - 1)
+        c = max(c, 2)
+        if odd_mod:
+            c |= 1
+        b = g_int(rng, K)
+        if rng.chance(1, 2):
+            b %= c
+        if b and math.gcd(b, c) == 1 and c > 1:
+            return b, c
+    return 3, 7
+
+
+def gen_args(rng, K, gen, spec):
+    n = 1 << K
+    Bk = 1 << n
+    h = Bk // 2
+    if gen == "1":
+        return [g_int(rng, K)]
+    if gen == "1s":
+        return [rng.choice([g_int(rng, K), Bk - 1 - rng.bits(rng.range(1, n - 1)), h, h - 1, h + 1, Bk - 1])]
+    if gen in ("2", "2s"):
+        return [g_int(rng, K), g_int(rng, K)]
+    if gen in ("2eq", "2seq"):
+        a = g_int(rng, K)
+        r = rng.below(5)
+        b = a if r == 0 else (a ^ (1 << rng.below(n))) if r == 1 else (a + rng.choice([1, -1, W64, -W64])) % Bk if r == 2 else g_int(rng, K)
+        return [a, b]
+    if gen == "self2":
+        x = g_int(rng, K)
+        return [x, x]
+    if gen == "2c":
+        return [g_int(rng, K), g_int(rng, K), rng.below(2)]
+    if gen == "3":
+        return [g_int(rng, K), g_int(rng, K), g_int(rng, K)]
+    if gen == "3d2":
+        return [g_int(rng, K), g_int(rng, K), g_int(rng, K + 1)]
+    if gen == "3w":
+        return [g_int(rng, K), g_int(rng, K), g_word(rng)]
+    if gen in ("1w", "1sw"):
+        return [g_int(rng, K), g_word(rng)]
+    if gen == "1w32":
+        return [g_int(rng, K), g_word(rng, 32)]
+    if gen == "1w63":
+        return [g_int(rng, K), g_word(rng, 63)]
+    if gen in ("1wsmall", "1swsmall"):
+        a = g_int(rng, K) if rng.chance(1, 3) else g_word(rng)
+        w = a % W64 if rng.chance(1, 3) else g_word(rng)
+        if gen == "1swsmall" and rng.chance(1, 4):
+            a = Bk - 1 - rng.bits(20)
+        return [a, w]
+    if gen in ("1si", "1ssi", "1ssi32"):
+        bits = 32 if gen.endswith("32") else 64
+        sw = g_si(rng, bits)
+        r = rng.below(6)
+        if gen == "1si":
+            a = sw if (r == 0 and sw >= 0) else g_word(rng, 63) if r == 1 else g_int(rng, K)
+        else:
+            a = sw % Bk if r == 0 else (sw + rng.choice([1, -1])) % Bk if r == 1 else (-rng.bits(rng.range(1, 62))) % Bk if r == 2 else g_int(rng, K)
+        return [a, sw]
+    if gen in ("si", "si32"):
+        return [g_si(rng, 32 if gen == "si32" else 64)]
+    if gen == "w":
+        return [g_word(rng)]
+    if gen == "limb":
+        return [g_int(rng, K), g_word(rng), rng.below(n // 64)]
+    if gen == "1n":
+        r = rng.below(4)
+        return [0 if r == 0 and rng.chance(1, 4) else (1 << rng.below(n)) | rng.bits(n) >> rng.below(n) if r < 3 else g_int(rng, K)]
+    if gen.startswith("sh"):
+        maxv = {"sh64": 2**64 - 1, "sh64s": 2**64 - 1, "sh64x": 2**64 - 1, "sh31": 2**31 - 1, "sh32": 2**32 - 1, "sh16": 65535, "sh8": 255}[gen]
+        a = g_int(rng, K)
+        if gen == "sh64s" and rng.chance(1, 2):
+            a |= h
+        return [a, g_shift(rng, K, maxv, ext=(gen == "sh64x"))]
+    if gen == "div":
+        b = g_divisor(rng, K)
+        return [g_dividend_for(rng, K, b), b]
+    if gen in ("divw", "divw63"):
+        mb = 63 if gen == "divw63" else 64
+        b = rng.choice([1, 2, 2, 3, 2**32, 2**63 - 1, (2**63) % (1 << mb) or 5, (1 << mb) - 1, g_word(rng, mb) or 1, g_word(rng, mb) or 1])
+        return [g_dividend_for(rng, K, b), b]
+    if gen == "div21":
+        b = g_divisor(rng, K)
+        b = (b << (n - b.bit_length())) % Bk | h          # normalised
+        N = g_dividend_for(rng, K, b, top=b * Bk)
+        return [N // Bk, N % Bk, b]
+    if gen == "div32":
+        return g_div32(rng, K)
+    if gen == "modn":
+        nn = g_divisor(rng, K)
+        return [g_dividend_for(rng, K + 1, nn), nn]
+    if gen == "gcd":
+        g = rng.choice([1, 1, 2, 3, W64 - 1, g_int(rng, K) >> rng.below(n)]) or 1
+        a = (g * (g_int(rng, K) >> rng.below(n))) % Bk
+        b = (g * (g_int(rng, K) >> rng.below(n))) % Bk
+        r = rng.below(12)
+        if r == 0:
+            a = 0
+        if r == 1:
+            b = 0
+        if r == 2:
+            b = a
+        if r == 3:   # consecutive Fibonacci numbers: the longest Euclid run
+            f0, f1 = 0, 1
+            while f1 + f0 < Bk:
+                f0, f1 = f1, f0 + f1
+            a, b = f1, f0
+        return [a, b]
+    if gen == "inv":
+        b, c = g_coprime_pair(rng, K)
+        return [b, c]
+    if gen == "bez":
+        c, d = g_coprime_pair(rng, K)
+        if rng.chance(1, 2):
+            c, d = d, c
+        return [max(c, 2), max(d, 2)] if math.gcd(max(c, 2), max(d, 2)) == 1 else [3, 7]
+    if gen in ("exp", "expw", "expw32"):
+        nmod = g_divisor(rng, K)
+        if rng.chance(1, 8):
+            nmod = rng.choice([1, 2, 3, Bk - 1])
+        b = g_int(rng, K)
+        if rng.chance(1, 2):
+            b %= nmod
+        if gen == "exp":
+            c = rng.choice([0, 1, 2, 3, g_int(rng, K), g_int(rng, K) >> rng.below(n), Bk - 1])
+        else:
+            c = g_word(rng, 32 if gen == "expw32" else 64)
+        return [b, c, nmod]
+    if gen == "odd":
+        return [g_int(rng, K) | 1]
+    if gen == "mpzu":
+        r = rng.below(5)
+        return [g_int(rng, K) if r < 3 else g_int(rng, K + 1) if r == 3 else Bk + rng.bits(70)]
+    if gen == "mpzs":
+        v = g_int(rng, K) % h if rng.chance(3, 4) else rng.choice([h - 1, h, 0, 1])
+        return [-v if rng.chance(1, 2) else v]
+    if gen == "sdiv":
+        b = g_divisor(rng, K) % h or 1
+        a = g_dividend_for(rng, K, b, top=h)
+        if rng.chance(1, 2):
+            a = (-a) % Bk
+        if rng.chance(1, 2):
+            b = (-b) % Bk
+        if rng.chance(1, 12):
+            a = h
+        return [a, b]
+    if gen == "sdivr":
+        b = max(g_divisor(rng, K) % h, 2)
+        a = g_dividend_for(rng, K, b, top=h)
+        if rng.chance(1, 2):
+            a = (-a) % Bk
+        return [a, b]
+    if gen == "sdivsi":
+        sw = g_si(rng) or 1
+        if sw == 2 and rng.chance(1, 2):
+            sw = rng.choice([2, -2])
+        a = g_dividend_for(rng, K, abs(sw), top=h)
+        if rng.chance(1, 2):
+            a = (-a) % Bk
+        return [a, sw]
+    if gen in ("smodn1", "smodn"):
+        nn = max(g_divisor(rng, K) % h, 1)
+        KK = K + 1 if gen == "smodn" else K
+        a = g_dividend_for(rng, KK, nn, top=(1 << (1 << KK)) // 2)
+        if rng.chance(1, 2):
+            a = (-a) % (1 << (1 << KK))
+        return [a, nn]
+    if gen == "sinv":
+        b, c = g_coprime_pair(rng, K)
+        c = max(c % h, 2)
+        b = b % c
+        if math.gcd(b, c) != 1:
+            b, c = 3, 7
+        if rng.chance(1, 2):
+            b = (b - c) % Bk      # negative representative in (-c, 0)
+        return [b, c]
+    raise KeyError(gen)
+
+
+# ------------------------------------------------------------------------------------------------ plumbing
 def source_threshold():
     txt = open(os.path.join(vf.REPO, "src/kernel/recint/recdefine.h")).read()
     m = re.search(r"#define\s+__RECINT_THRESHOLD_KARA\s+(\d+)", txt)
@@ -82,7 +645,92 @@ def source_threshold():
 
 
 def tok(x):
-    return x.strip().lower().lstrip("0") or "0"
+    x = x.strip().lower()
+    neg = x.startswith("-")
+    x = x.lstrip("-").lstrip("0") or "0"
+    return ("-" + x) if neg and x != "0" else x
+
+
+def fmt_arg(x):
+    return hex(x) if x >= 0 else str(x)
+
+
+def fmt_exp(spec, vals):
+    if spec in DEC_RESULTS:
+        return [str(v) for v in vals]
+    return [tok(hex(v)[2:]) if v >= 0 else "-" + tok(hex(-v)[2:]) for v in vals]
+
+
+def klass_of(v, spec, K, a):
+    """input class used to key known findings narrowly"""
+    if v.startswith("shl.u8") or v.startswith("shr.u8"):
+        return "K>=8,count>=2" if K >= 8 and a[1] >= 2 else "K=%d" % K
+    if spec == "scmp_si":
+        return "both-negative" if sval(a[0], K) < 0 and a[1] < 0 else "K=%d" % K
+    if spec in ("sadd_si", "ssub_si", "smul_si"):
+        return "K>=7,word<0" if K >= 7 and a[1] < 0 else "K=%d" % K
+    if spec == "sshr":
+        return "a<0,count>=1" if sval(a[0], K) < 0 and a[1] >= 1 else "K=%d" % K
+    if spec == "slsquare":
+        return "a<0" if sval(a[0], K) < 0 else "K=%d" % K
+    if spec == "exp_mod":
+        return "n=1,c=0" if a[2] == 1 and a[1] == 0 else "K=%d" % K
+    return "K=%d" % K
+
+
+def case_count(v, info, K, tier):
+    q = tier == "quick"
+    fl = info["flags"]
+    base = 10 if q else 300
+    if K >= 10:
+        base = 4 if q else 60
+    if "vheavy" in fl:        # exp_mod with a full-size exponent: 2^K modular squarings in the model
+        base = {6: 6, 7: 4, 8: 2}.get(K, 0) if q else {6: 60, 7: 40, 8: 20, 9: 6, 10: 2, 11: 1}[K]
+    elif "heavy" in fl:
+        base = {6: 8, 7: 8, 8: 6, 9: 4, 10: 2, 11: 2}[K] if q else {6: 200, 7: 200, 8: 100, 9: 60, 10: 20, 11: 10}[K]
+    elif info["gen"] in ("div", "div21", "div32", "modn", "sdiv", "sdivr", "divw", "divw63"):
+        base = (16 if K <= 9 else 6) if q else (600 if K <= 9 else 100)
+    return base
+
+
+def build_cases(rng, tier):
+    cases = []
+    for v, info in sorted(VARIANTS.items()):
+        for K in KS:
+            fl = info["flags"]
+            if "w" in fl and K == 11:
+                continue      # needs ruint<12>; covered up to K = 10
+            if "k7" in fl and K < 7:
+                continue
+            for i in range(case_count(v, info, K, tier)):
+                a = gen_args(rng, K, info["gen"], info["spec"])
+                if info["spec"] == "add_1" and i < 3:
+                    a = [(1 << (1 << K)) - 1 - i]
+                if info["spec"] == "sub_1" and i < 3:
+                    a = [i]
+                cases.append((v, K, a))
+    return cases
+
+
+def run_split(binary, lines, nproc, timeout):
+    """run a line-protocol binary on `lines`, split in nproc interleaved chunks (order restored)"""
+    if not lines:
+        return 0, [], ""
+    nproc = max(1, min(nproc, len(lines)))
+    chunks = [lines[i::nproc] for i in range(nproc)]
+    with ThreadPoolExecutor(nproc) as ex:
+        res = list(ex.map(lambda c: vf.run_lines(binary, "".join(c), timeout=timeout), chunks))
+    out = [None] * len(lines)
+    err = ""
+    rc = 0
+    for i, (r, o, e) in enumerate(res):
+        o = [l for l in o if not l.startswith("#")]
+        if r != 0 or len(o) != len(chunks[i]):
+            rc = r or 1
+            err += "chunk %d: rc=%s, %d/%d lines\n%s\n" % (i, r, len(o), len(chunks[i]), e[-1500:])
+            o = o + ["MISSING"] * (len(chunks[i]) - len(o))
+        out[i::nproc] = o[:len(chunks[i])]
+    return rc, out, err
 
 
 def main(tier, replay=None):
@@ -92,90 +740,106 @@ def main(tier, replay=None):
     chk.cov["trusted_base"] = [
         "Coq 8.16.1 kernel + vm_compute (no native_compute)",
         "extraction: ExtrOcamlBasic only; Z/positive/nat kept as extracted inductives; OCaml 4.13.1; zarith only for text I/O in harness/zio.ml",
-        "limb primitives of reclonglong.h (add_ssaaaa, sub_ddmmss, umul_ppmm) are specified in Model.v, not translated; validated by the correspondence run",
-        "harness/c06_recint.C, checks/C06.py (case generator, python big-integer oracle)",
+        "limb primitives of reclonglong.h: add_ssaaaa, sub_ddmmss, umul_ppmm are specified in Model.v (Z arithmetic mod 2^64), "
+        "__udiv_qrnnd_c is modelled step by step; validated by the correspondence run",
+        "harness/c06_recint.C, checks/C06.py (case generators, python big-integer oracle)",
         "g++ 12 / x86-64 for the implementation side",
     ]
     chk.assumptions = ["model is hand-written after the templates; tie = correspondence on generated cases, K=6..11",
                        "__RECINT_THRESHOLD_KARA read from recdefine.h = %s and passed to the model" % thr]
-    # 1. proofs
-    res = vf.coq_check_props(AREA)
+    ncpu = max(2, min(12, vf.NCPU - 2))
+    # 1. proofs + executables, built concurrently (the Coq build dominates)
+    with ThreadPoolExecutor(3) as ex:
+        f_coq = ex.submit(vf.coq_check_props, AREA)
+        f_h1 = ex.submit(vf.build_harness, "c06_recint.C", ("-DC06_PART=1",), False, (), 900, "c06_recint_p1")
+        f_h2 = ex.submit(vf.build_harness, "c06_recint.C", ("-DC06_PART=2",), False, (), 900, "c06_recint_p2")
+        res = f_coq.result()
+        h1, l1 = f_h1.result()
+        h2, l2 = f_h2.result()
     chk.proof_result(res, AREA)
-    # 2. executables
-    drv, l1 = vf.ocaml_build(AREA) if os.path.exists(os.path.join(vf.coq_dir(AREA), "ocaml", "model.ml")) else (None, "extraction did not run")
+    drv, l0 = vf.ocaml_build(AREA) if os.path.exists(os.path.join(vf.coq_dir(AREA), "ocaml", "model.ml")) else (None, "extraction did not run")
     if drv is None:
-        chk.broke("extracted model driver does not build", l1)
-    himpl, l2 = vf.build_harness("c06_recint.C", link_lib=False)
-    if himpl is None:
-        chk.broke("implementation harness does not compile against /repo", l2)
+        chk.broke("extracted model driver does not build", l0)
+    if h1 is None or h2 is None:
+        chk.broke("implementation harness does not compile against /repo", (l1 or "") + (l2 or ""))
         return chk.finish()
     if thr is None:
         chk.broke("cannot read __RECINT_THRESHOLD_KARA from recdefine.h")
         thr = 10
-    # 3. cases
-    per = 25 if tier == "quick" else 400
-    cases = []
-    for v, (op, n, nres) in sorted(VARIANTS.items()):
-        for K in range(6, 12):
-            if v.endswith(".a") or v.endswith(".ra") or op == "laddmul2":
-                if K == 11:
-                    continue      # needs ruint<12>; covered up to K = 10
-            cnt = per if K <= 9 else max(6, per // 4)
-            for i in range(cnt):
-                a = [gen_operand(rng, K, op, j) for j in range(n)]
-                if op == "add_1" and i < 3:
-                    a = [(1 << (1 << K)) - 1 - i]
-                cases.append((v, op, K, a, nres))
-    impl_in = "".join("%s %d %d %s\n" % (v, K, thr, " ".join(hex(x) for x in a)) for v, op, K, a, nres in cases)
-    model_in = "".join("%s %d %d %s\n" % (op, K, thr, " ".join(hex(x) for x in a)) for v, op, K, a, nres in cases)
-    rc, iout, ierr = vf.run_lines(himpl, impl_in, timeout=900)
-    iout = [l for l in iout if not l.startswith("#")]
-    if rc != 0 or len(iout) != len(cases):
-        chk.broke("implementation harness failed (rc=%s, %d/%d lines)" % (rc, len(iout), len(cases)), ierr)
-        return chk.finish()
-    mout = None
+    # 2. cases
+    if replay:
+        rp = json.load(open(replay))
+        cases = [(f["case"]["variant"], f["case"]["K"], [int(x, 0) for x in f["case"]["args"]]) for f in rp.get("failing_inputs", [])
+                 if f.get("case", {}).get("variant") in VARIANTS]
+        if not cases:
+            cases = build_cases(vf.Rng(rp.get("seed", chk.seed)), tier)
+    else:
+        cases = build_cases(rng, tier)
+    line = lambda name, K, a: "%s %d %d %s\n" % (name, K, thr, " ".join(fmt_arg(x) for x in a))
+    idx = {1: [], 2: []}
+    for i, (v, K, a) in enumerate(cases):
+        idx[VARIANTS[v]["part"]].append(i)
+    iout = [None] * len(cases)
+    with ThreadPoolExecutor(2) as ex:
+        futs = {p: ex.submit(run_split, (h1 if p == 1 else h2), [line(cases[i][0], cases[i][1], cases[i][2]) for i in idx[p]],
+                             max(1, ncpu // 2), 1500) for p in (1, 2)}
+        for p in (1, 2):
+            rc, out, err = futs[p].result()
+            if rc != 0:
+                chk.broke("implementation harness part %d failed (a crash or a hang is a failure of the property's operations "
+                          "on one of the generated inputs)" % p, err)
+            for j, i in enumerate(idx[p]):
+                iout[i] = out[j]
+    midx = [i for i, (v, K, a) in enumerate(cases) if VARIANTS[v]["model"]]
+    mout = {}
     if drv:
-        rc, mout, merr = vf.run_lines(drv, model_in, timeout=1500)
-        if rc != 0 or len(mout) != len(cases):
-            chk.broke("model driver failed (rc=%s, %d/%d lines)" % (rc, len(mout), len(cases)), merr)
-            mout = None
-    # 4. three-way comparison
+        rc, out, err = run_split(drv, [line(VARIANTS[cases[i][0]]["model"], cases[i][1], cases[i][2]) for i in midx], ncpu, 2400)
+        if rc != 0:
+            chk.broke("model driver failed", err)
+        else:
+            mout = dict(zip(midx, out))
+    # 3. three-way comparison
     ncorr = 0
+    nspec = 0
     dist = {}
-    for i, (v, op, K, a, nres) in enumerate(cases):
-        exp = [tok(hex(x)[2:]) if x >= 0 else "-" + tok(hex(-x)[2:]) for x in oracle(op, K, a)][:nres]
-        got = [tok(t) for t in iout[i].split()][:nres]
-        if op == "cmp":
-            exp = [str(oracle(op, K, a)[0])]
-            got = iout[i].split()[:1]
-        key = "%s/K=%d" % (v, K)
-        dist[key] = dist.get(key, 0) + 1
-        chk.count((v, K, tuple(a)), nontrivial=any(x > 1 for x in a))
-        if i % 997 == 0:
-            chk.sample({"variant": v, "K": K, "args": [hex(x) for x in a], "impl": iout[i], "spec": exp})
-        if got != exp:
-            chk.fail_input("RecInt::" + v, "K=%d" % K, {"variant": v, "K": K, "args": [hex(x) for x in a]}, exp, iout[i],
-                           "implementation differs from integer arithmetic mod 2^(2^K)")
-        if mout is not None:
+    for i, (v, K, a) in enumerate(cases):
+        info = VARIANTS[v]
+        spec, nres = info["spec"], info["nres"]
+        ev = oracle(spec, K, a)
+        exp = fmt_exp(spec, ev)[:nres] if ev is not None else None
+        got = [tok(t) for t in (iout[i] or "MISSING").split()]
+        extra = got[nres:]
+        got = got[:nres]
+        dist[spec] = dist.get(spec, 0) + 1
+        chk.count((v, K, tuple(a)), nontrivial=any(abs(x) > 1 for x in a))
+        if i % max(1, len(cases) // 12) == 0:
+            chk.sample({"variant": v, "K": K, "args": [fmt_arg(x) for x in a], "impl": iout[i], "spec": exp})
+        case = {"variant": v, "K": K, "args": [fmt_arg(x) for x in a]}
+        bad_spec = False
+        if exp is not None:
+            nspec += 1
+            if got != exp or extra:
+                bad_spec = True
+                chk.fail_input("RecInt::" + v, klass_of(v, spec, K, a), case, exp, iout[i],
+                               "implementation differs from integer arithmetic reduced to 2^K bits")
+        if i in mout and not bad_spec:      # a failing input is reported once, not again as a correspondence break
             mg = [tok(t) for t in mout[i].split()][:nres]
-            if op == "cmp":
-                mg = mout[i].split()[:1]
             ncorr += 1
             if mg != got:
                 chk.broke("correspondence model/implementation differs on %s K=%d args=%s: model=%s impl=%s"
-                          % (v, K, [hex(x) for x in a], mout[i], iout[i]))
-            if mg != exp:
-                chk.broke("extracted model differs from the specification oracle on %s K=%d args=%s: model=%s spec=%s"
-                          % (op, K, [hex(x) for x in a], mout[i], exp))
-    # keep the list of broken items short
+                          % (v, K, [fmt_arg(x) for x in a], mout[i], iout[i]))
+            if exp is not None and mg != exp:
+                chk.broke("extracted model differs from the specification oracle on %s (%s) K=%d args=%s: model=%s spec=%s"
+                          % (info["model"], v, K, [fmt_arg(x) for x in a], mout[i], exp))
     if len(chk.broken) > 20:
         chk.broken = chk.broken[:20] + [{"what": "... %d more" % (len(chk.broken) - 20), "detail": ""}]
-    chk.cov["rule"] = ("every call form (variant) x K=6..11 x operands with limbs from {0,1,2^63,2^64-1,random} / boundary values; "
+    chk.cov["rule"] = ("every call form (variant) x K=6..11 x operands with limbs from {0,1,2^63,2^64-1,random} / boundary values / "
+                       "division-directed (a = q*b + r, divisors 100..0|11..1) / shift counts around 0,1,64,2^(K-1),2^K,2^(K+1),2^64-1; "
                        "non-trivial = some operand > 1; distinct = (variant,K,operands)")
     chk.cov["traces_validated_against_impl"] = ncorr
+    chk.cov["cases_checked_against_spec_oracle"] = nspec
     chk.cov["variants"] = len(VARIANTS)
+    chk.cov["variants_with_model"] = len([v for v in VARIANTS.values() if v["model"]])
     chk.cov["kara_threshold_from_source"] = thr
-    chk.cov["distribution_by_op"] = {}
-    for v, op, K, a, nres in cases:
-        chk.cov["distribution_by_op"][op] = chk.cov["distribution_by_op"].get(op, 0) + 1
+    chk.cov["distribution_by_op"] = dist
     return chk.finish()
